@@ -151,12 +151,14 @@ type kase struct {
 	Id       int    `json:"id"`
 	Layer    string `json:"layer"` // raw | gob
 	Passcred bool   `json:"passcred"`
+	Inspect  string `json:"inspect"` // when the received messages are looked at: now (default) | lag | end
 	Ops      []op   `json:"ops"`
 }
 
 // event is one logged operation; fields that do not apply to the operation are omitted.
 type event struct {
-	Op string `json:"op"` // send | recv | probe
+	Op string `json:"op"` // send | recv | inspect | probe
+	J  int    `json:"j"`  // inspect: which delivered message (1 = first) the caller looks at now
 	// send
 	Id   int    `json:"id"`   // message id (1..)
 	Len  int    `json:"len"`  // payload bytes (gob: of the Data field)
@@ -433,6 +435,33 @@ func runCase(c kase, fs *files, own, forged []int) (*trace, error) {
 	var sent []sentMsg
 	nextID := 0
 	accepted, consumed := 0, 0
+	var heldMsgs []unixsocket.Msg
+	seen := map[int]bool{}
+	inspect := func(j int) {
+		if seen[j] {
+			return
+		}
+		seen[j] = true
+		m := heldMsgs[j-1]
+		ev := event{Op: "inspect", J: j, Cred: []int{}, Mids: []int{}, Rfidx: []int{}}
+		for _, fd := range m.Fds {
+			i, ce, same := fs.look(fd)
+			ev.Rfidx = append(ev.Rfidx, i)
+			if ce {
+				ev.Nce++
+			}
+			if same {
+				ev.Nsame++
+			}
+		}
+		if m.Cred != nil {
+			ev.Cred = []int{int(m.Cred.Pid), int(m.Cred.Uid), int(m.Cred.Gid)}
+		}
+		for _, fd := range m.Fds {
+			syscall.Close(fd)
+		}
+		tr.Ev = append(tr.Ev, ev)
+	}
 	var ops []op
 	for _, o := range c.Ops {
 		ops = append(ops, o)
@@ -560,26 +589,34 @@ func runCase(c kase, fs *files, own, forged []int) (*trace, error) {
 				consumed++
 			}
 			ev.Handed = len(m.Fds)
-			for _, fd := range m.Fds {
-				i, ce, same := fs.look(fd)
-				ev.Rfidx = append(ev.Rfidx, i)
-				if ce {
-					ev.Nce++
-				}
-				if same {
-					ev.Nsame++
+			tr.Ev = append(tr.Ev, ev)
+			if rerr != nil {
+				for _, fd := range m.Fds { // handed over next to an error: recorded above, not kept
+					syscall.Close(fd)
 				}
 			}
-			for _, fd := range m.Fds {
-				syscall.Close(fd)
+			if rerr == nil {
+				// the caller keeps the message exactly as it was returned (no copy) and looks at it
+				// now, after the next receive, or after the whole sequence
+				heldMsgs = append(heldMsgs, m)
+				switch c.Inspect {
+				case "end":
+				case "lag":
+					if len(heldMsgs) >= 2 {
+						inspect(len(heldMsgs) - 1)
+					}
+				default:
+					inspect(len(heldMsgs))
+				}
 			}
-			if m.Cred != nil {
-				ev.Cred = []int{int(m.Cred.Pid), int(m.Cred.Uid), int(m.Cred.Gid)}
-			}
+			continue
 		default:
 			return nil, fmt.Errorf("unknown op %q", o.Op)
 		}
 		tr.Ev = append(tr.Ev, ev)
+	}
+	for j := 1; j <= len(heldMsgs); j++ { // whatever the caller has not looked at yet
+		inspect(j)
 	}
 	// is anything left at the receiving end?  (a message the sender reported as refused must not be)
 	pe := event{Op: "probe", Cred: []int{}, Mids: []int{}, Rfidx: []int{}}
